@@ -408,6 +408,12 @@ pub trait Encoding: private::SealedContainer {
             let net =
                 Self::hrp_network(hrp).ok_or_else(|| ParseError::UnknownPrefix(hrp.to_string()))?;
 
+            // The 8-to-5 bit regrouping must be canonical (at most 4 bits of padding, all
+            // zero); otherwise several strings would decode to the same container.
+            parsed.validate_segwit_padding().map_err(|e| {
+                ParseError::InvalidEncoding(format!("Invalid Bech32m padding: {e}"))
+            })?;
+
             let data = parsed.byte_iter().collect::<Vec<_>>();
 
             Self::parse_internal(hrp, data).map(|value| (net, value))
